@@ -15,6 +15,7 @@ const (
 )
 
 func checkStress33(sc scenarioT, r *evid.Rec) []evid.Disc {
+	r.Sample(sc)
 	if !validScenario(sc) {
 		r.NotAsserted()
 		return nil
